@@ -289,6 +289,95 @@ def alias_class(raw, scope):
     return any(alias_class(k, sc) for k in raw["kids"] if k["kind"] == "elem")
 
 
+
+# ------------------------------------------------------------------ history sensitivity and optional parameters
+def history_phase(ctx, io, hist, thorough):
+    """The model is a pure function of the infoset and the flags; this phase tests that the
+    implementation is too: every (document, flags, literals) imported again after all the others
+    (reverse order), with defaults / positional / keyword arguments, with the flag combinations
+    alternating on one document, in a fresh interpreter in shuffled order, and the export/import
+    chain on a tree edited in place against a freshly built identical tree."""
+    from harness.c07 import edit_in_place
+    rng = ctx.rng
+
+    def imp(doc, clean, collapse, lits, style=0):
+        try:
+            if style == 0:
+                n = io.from_xml(doc, clean=clean, collapse=collapse, literals=lits)
+            elif style == 1:
+                n = io.from_xml(doc, clean, collapse, lits)
+            else:
+                n = io.from_xml(literals=lits, collapse=collapse, xml=doc, clean=clean)
+            return X.strip_ids(NL.snapshot(n)), n
+        except Exception as ex:
+            return {"exc": type(ex).__name__}, None
+
+    # (a) again, in reverse order, alternating call styles; nothing is reset in between
+    for i, (doc, clean, collapse, lits, first) in enumerate(reversed(hist)):
+        got, _ = imp(doc, clean, collapse, lits, style=i % 3)
+        ctx.case(("hist", doc, clean, collapse, lits), False)
+        if got != first:
+            ctx.fail("C08:history:repeat", "from_xml gives a different tree for the same document and flags when called again after other imports",
+                     {"kind": "history", "document": doc, "clean": clean, "collapse": collapse, "literals": list(lits), "first": first, "later": got})
+    # (b) defaults, and all flag combinations alternating on the same document
+    docs = []
+    for doc, _c, _k, _l, _f in hist:
+        if doc not in docs:
+            docs.append(doc)
+    for doc in docs[: (200 if thorough else 40)]:
+        ref = {}
+        combos = [(c, k, l) for c in (True, False) for k in (False, True) for l in ((), ("para", "a"), ("lit",))]
+        for c, k, l in combos:
+            ref[(c, k, l)] = imp(doc, c, k, l)[0]
+        d0 = None
+        try:
+            d0 = X.strip_ids(NL.snapshot(io.from_xml(doc)))
+        except Exception as ex:
+            d0 = {"exc": type(ex).__name__}
+        if d0 != ref[(True, False, ())]:
+            ctx.fail("C08:history:defaults", "from_xml(doc) differs from from_xml(doc, clean=True, collapse=False, literals=())",
+                     {"kind": "history", "document": doc, "defaults": d0, "explicit": ref[(True, False, ())]})
+        order = combos[:]
+        rng.shuffle(order)
+        for c, k, l in order:
+            ctx.case(("alt", doc, c, k, l), False)
+            got = imp(doc, c, k, l, style=rng.randrange(3))[0]
+            if got != ref[(c, k, l)]:
+                ctx.fail("C08:history:flags-leak", "the result for one flag combination depends on the calls made before it",
+                         {"kind": "history", "document": doc, "clean": c, "collapse": k, "literals": list(l), "first": ref[(c, k, l)], "later": got})
+    # (c) a fresh interpreter, shuffled order
+    jobs = [({"op": "import", "doc": d, "clean": c, "collapse": k, "literals": list(l)}, f) for d, c, k, l, f in hist]
+    rng.shuffle(jobs)
+    try:
+        res = X.fresh_run([j for j, _ in jobs])
+        for (j, want), got in zip(jobs, res):
+            ctx.case(("fresh", j["doc"], j["clean"], j["collapse"], tuple(j["literals"])), False)
+            if got != want:
+                ctx.fail("C08:history:fresh-interpreter", "a fresh interpreter imports the same document differently (state leaked between calls in one of the two processes)",
+                         {"kind": "history", "job": j, "in_process": want, "fresh_interpreter": got})
+    except Exception as ex:
+        ctx.fail("harness:fresh-interpreter", "could not run the fresh-interpreter reference: %s" % ex, {"kind": "harness"}, concrete=False)
+    # (d) the chain on a tree edited in place vs a freshly built identical tree
+    for i, doc in enumerate(docs[: (150 if thorough else 40)]):
+        clean, collapse = rng.choice(FLAGS)
+        _, node = imp(doc, clean, collapse, ())
+        if node is None:
+            continue
+        ops = edit_in_place(rng, node, "c8h%d" % i)
+        sn2 = NL.snapshot(node)
+        try:
+            used = io.to_xml(node)
+            fresh = io.to_xml(NL.build(sn2, attach=False))
+        except Exception as ex:
+            ctx.fail("C08:history:export-raises", "exporting an imported and edited tree raised %s" % type(ex).__name__,
+                     {"kind": "history", "document": doc, "edits": ops})
+            continue
+        ctx.case(("edit", used), False)
+        if used != fresh:
+            ctx.fail("C08:history:stale-after-edit", "an imported tree edited in place exports differently from a freshly built identical tree",
+                     {"kind": "history", "document": doc, "edits": ops, "tree": X.strip_ids(sn2), "used_tree_output": used, "fresh_tree_output": fresh})
+    NL.reset_store()
+
 DIRECTED = [
     '<a> \n</a>',
     '<a><b/> \n</a>',
@@ -324,6 +413,7 @@ def run(ctx):
         docs.append((gen_doc(ctx.rng, opts), origin))
 
     cases, wants, meta = [], [], []
+    hist = []
     mcases, mmeta = [], []
     pcases, pw_raw, pw_lx, pmeta = [], [], [], []
     for doc, origin in docs:
@@ -358,6 +448,7 @@ def run(ctx):
             cases.append("(" + cbool(clean) + ", " + cbool(collapse) + ", " + clist(cstr(l) for l in lits) + ", " + X.coq_xel(lx) + ")")
             wants.append(want)
             meta.append({"document": doc, "clean": clean, "collapse": collapse, "literals": list(lits), "observed": sn or exc})
+            hist.append((doc, clean, collapse, lits, sn if sn is not None else {"exc": exc}))
             if not in_class:
                 NL.reset_store()
                 continue
@@ -395,6 +486,8 @@ def run(ctx):
                 ctx.fail(key, "import-export-import is not stable: " + what, dict(rep, first_import=sn, exported=out, second_import=s2))
             NL.reset_store()
         ctx.sample({"document": doc, "origin": origin}, limit=4)
+
+    history_phase(ctx, io, hist, thorough)
 
     shard = 150
     bad, errors = RL.coq_compare(ctx, "imp", "run_import", cases, wants, shard=shard, header=X.HEADER, eqb="(res_eqb itree_eqb)")
